@@ -13,7 +13,8 @@ Line protocol of the C08 model: one JSON object per line.
    "stop": "Exclusive" | "Inclusive",
    "nrefs": n, "refidx": i                      (op = tagged)
    "nfeats": n, "link": "tagged" | "untagged" | "indexed"   (op = feature)
-   "idx": i}                                    (k = mtag: the position index)
+   "idx": i,                                    (k = mtag: the position index)
+   "via": "default" | "retrieve"}               (optional) the call carries no stop rule / is the deprecated wrapper
 
   dim  ::= ["sampled", off|null, si, unit|null] | ["range", [tick, …], unit|null] | ["set", nlabels]
   tag:  "pos": [x, …], "ext": [x, …] ([] = no extent stored)
@@ -140,9 +141,22 @@ def outViewOn (r : Except Nix.Err View) (on : Except Nix.Err Nat) : Json :=
         Json.arr #[Json.num (JsonNumber.fromInt w.1), Json.num (JsonNumber.fromInt w.2)]).toArray),
       ("on", match on with | .ok k => Json.num (JsonNumber.fromNat k) | .error _ => Json.null)])
 
+def sigOf (k op : String) : String :=
+  if k == "tag" then
+    (if op == "tagged" then "Tag.tagged_data(refidx, stop_rule)" else "Tag.feature_data(featidx, stop_rule)")
+  else
+    (if op == "tagged" then "MultiTag.tagged_data(posidx, refidx, stop_rule)"
+     else "MultiTag.feature_data(posidx, featidx, stop_rule)")
+
+/-- `"via": "default" | "retrieve"`: the call is made without a stop rule (the generated default applies) -/
+def stopOfCase (j : Json) : Option (Option SliceMode) :=
+  if isNull (field j "via") then (jSlice? (field j "stop")).map some
+  else some (defaultStop? (sigOf (jStr (field j "k")) (jStr (field j "op"))))
+
 def handle (j : Json) : Json :=
-  match jNats? (field j "shape"), jDims? (field j "dims"), jStrs? (field j "units"), jSlice? (field j "stop") with
-  | some shape, some dims, some units, some stop =>
+  match jNats? (field j "shape"), jDims? (field j "dims"), jStrs? (field j "units"), stopOfCase j with
+  | some _, some _, some _, some none => err .typeError
+  | some shape, some dims, some units, some (some stop) =>
     let arr : Arr := ⟨shape, dims⟩
     match jStr (field j "k"), jStr (field j "op") with
     | "tag", op =>
